@@ -10,7 +10,7 @@ from .core import History, Sub, Outcome, target
 PID = 'C15'
 SHARDS = {'quick': 4, 'thorough': 16}
 RULE = ('Histories of density/diameter assignments (single type or list of types, python float / int / numpy '
-        'scalar values, log-uniform 1e-6..1e2) on 1-4 types run by a Hypothesis RuleBasedStateMachine against a dict '
+        'scalar values, log-uniform 1e-6..1e2, or the current value changed by a relative 1e-12..1e-6 / absolute 1e-10..1e-9 amount) on 1-4 types run by a Hypothesis RuleBasedStateMachine against a dict '
         'model; after every step every derived quantity (pair, site, total, sigma, volume, accessors, check()) is '
         'compared with the model. Non-trivial = the history re-assigns a type after another type was assigned; '
         'distinct = hash of (type list, operation trace). Sub-check "orders" enumerates every sequence of <=4 '
@@ -24,7 +24,10 @@ EPS = np.finfo(float).eps
 
 def _value():
     f = st.floats(-6, 2).map(lambda e: float('%.6g' % (10.0 ** e)))
-    return st.one_of(f, f, st.integers(1, 50), f.map(lambda v: ['np', v]))
+    # 'nudge': the current value of the (first) addressed type changed by a tiny relative or absolute amount -- a fine parameter
+    # sweep; a derived quantity must follow however small the change
+    nudge = st.sampled_from([['nudge', 1e-6, 0.0], ['nudge', -3e-7, 0.0], ['nudge', 1e-9, 0.0], ['nudge', 0.0, 1e-9], ['nudge', 0.0, -2e-10], ['nudge', 1e-12, 0.0]])
+    return st.one_of(f, f, st.integers(1, 50), f.map(lambda v: ['np', v]), nudge)
 
 
 def _val(v):
@@ -68,9 +71,15 @@ class DensityDiameterHistory(History):
             self.compare(state, out)
             return
         key = self._key(state, op['key'])
-        val = _val(op['value'])
         names = key if isinstance(key, list) else [key]
         which = 'm_rho' if op['op'] == 'set_density' else 'm_dia'
+        if isinstance(op['value'], list) and op['value'][0] == 'nudge':
+            cur = float(state[which].get(names[0], 1.0))
+            val = cur * (1.0 + op['value'][1]) + op['value'][2]
+            if val != cur and names[0] in state[which]:
+                state['nudged'] = True
+        else:
+            val = _val(op['value'])
         for nme in names:
             if nme in state[which] and any(o != nme for o in state[which]):
                 state['reassign_after_other'] = True
@@ -146,6 +155,8 @@ class DensityDiameterHistory(History):
         out.label('ntypes=%d' % len(state['types']))
         if state['reassign_after_other']:
             out.label('reassign-after-other')
+        if state.get('nudged'):
+            out.label('tiny-change-reassignment')
         if any(isinstance(op.get('key'), list) for op in trace):
             out.label('list-key')
         if len(state['m_rho']) == len(state['types']) and len(state['m_dia']) == len(state['types']):
